@@ -83,7 +83,21 @@ class C08(Prop):
             expect_first = True
             mutation = None
             if kind == "mutate":
-                mutation = rng.choice(["drop", "dup", "swap", "readdress", "nofir", "oversize", "seqskip"])
+                mutation = rng.choice(["drop", "dup", "swap", "readdress", "nofir", "oversize", "seqskip", "overflow-repeat", "overflow-repeat"])
+                if mutation == "overflow-repeat":
+                    # segments that fill the buffer, one that overflows it, then a short segment REPEATING that
+                    # sequence number with FIN: nothing may be delivered from them
+                    nfull = cap // 249
+                    first = [(dnp.tp_header(False, k == 0, (seq0 + k) & 63), rng.bytes(249), src) for k in range(nfull)]
+                    room = cap - 249 * nfull
+                    over = (dnp.tp_header(False, nfull == 0, (seq0 + nfull) & 63), rng.bytes(min(249, room + rng.range(1, 50))), src)
+                    if len(over[1]) <= room:
+                        over = (over[0], rng.bytes(min(249, room + 1)), src)
+                    fit = rng.range(1, room) if room >= 1 else 0
+                    stream = first + [over]
+                    if fit >= 1 and len(over[1]) > room and nfull >= 1:
+                        stream.append((dnp.tp_header(True, False, (seq0 + nfull) & 63), rng.bytes(fit), src))
+                    expect_first = False
                 if mutation == "oversize":
                     big = rng.bytes(cap + rng.range(1, 249))
                     stream = [(t, c, src) for t, c in dnp.segments(big, seq0)]
